@@ -30,7 +30,19 @@ func (d *ParserCustomData) PrepareCustomDice(p *parser) bool {
 	}
 
 	d.pendingCustomDice = match
+	if p.checkSkipCode() {
+		// 处于 &(...) / !(...) 预查中时语法动作不会执行(ConsumeCustomDice 也不会)，
+		// 在这里前进，使预查看到的匹配宽度与正式解析一致
+		d.advanceOverCustomDice(p, match)
+	}
 	return true
+}
+
+func (d *ParserCustomData) advanceOverCustomDice(p *parser, match *customDiceMatch) {
+	targetOffset := match.startOffset + match.byteLen
+	for p.pt.offset < targetOffset {
+		p.read()
+	}
 }
 
 func (d *ParserCustomData) ConsumeCustomDice(p *parser) any {
@@ -45,11 +57,7 @@ func (d *ParserCustomData) ConsumeCustomDice(p *parser) any {
 		return nil
 	}
 
-	targetOffset := match.startOffset + match.byteLen
-	for p.pt.offset < targetOffset {
-		p.read()
-	}
-
+	d.advanceOverCustomDice(p, match)
 	return nil
 }
 
